@@ -848,7 +848,8 @@ fn c02_build(cfg: &[u16]) -> Built {
     let mut c = CfgSpec::default();
     let mut prof = Profile::base().with(&[
         (K::RawConnect, 8),
-        (K::RegLine, 40),
+        (K::RegLine, 34),
+        (K::Contend, 10),
         (K::DropUnreg, 10),
         (K::Nick, 12),
         (K::Join, 6),
